@@ -138,3 +138,32 @@ Proof.
   - intros a' Ha. unfold get_def. cbn [defs ctx_with_defs]. rewrite Ha. apply lookup_remove_same.
   - split; reflexivity.
 Qed.
+
+(** ---- naming one register twice, removing one name: every OTHER alias keeps its meaning ---- *)
+Lemma lookup_insert_other {V} k k' (v : V) m : str_eqb k' k = false -> lookup k' (insert k v m) = lookup k' m.
+Proof. intros H. unfold insert. cbn [lookup]. rewrite H. reflexivity. Qed.
+Lemma lookup_remove_other {V} k k' (m : list (str * V)) : str_eqb k' k = false -> lookup k' (remove k m) = lookup k' m.
+Proof.
+  intros H. induction m as [|[k0 v] m IH]; [reflexivity|]. cbn [remove lookup].
+  destruct (str_eqb k k0) eqn:E.
+  - apply str_eqb_eq in E. subst k0. rewrite H. exact IH.
+  - cbn [lookup]. rewrite IH. reflexivity.
+Qed.
+
+Theorem def_keeps_others fuel t c cur out cp alias reg c' cur' out' other :
+  pass2_item fuel t (c, cur, out) (cp, IDef alias (EIdent reg)) = Ok (c', cur', out') ->
+  str_eqb (lower other) (lower alias) = false -> get_def c' other = get_def c other.
+Proof.
+  unfold pass2_item. cbn [fst]. intros H Hne.
+  destruct (reg_of_name reg); [|discriminate].
+  destruct (exist (ctx_set_pc c cur) (lower alias)); injection H as <- _ _; unfold get_def; cbn [defs ctx_with_defs ctx_set_pc]; [reflexivity|].
+  rewrite lower_idem. apply lookup_insert_other. exact Hne.
+Qed.
+Theorem undef_keeps_others fuel t c cur out cp alias c' cur' out' other :
+  pass2_item fuel t (c, cur, out) (cp, IUndef alias) = Ok (c', cur', out') ->
+  str_eqb (lower other) (lower alias) = false -> get_def c' other = get_def c other.
+Proof.
+  unfold pass2_item. cbn [fst]. intros H Hne.
+  destruct (lookup (lower alias) (defs (ctx_set_pc c cur))); [|discriminate]. injection H as <- _ _.
+  unfold get_def. cbn [defs ctx_with_defs ctx_set_pc]. apply lookup_remove_other. exact Hne.
+Qed.
